@@ -2344,7 +2344,23 @@ impl Translator {
                     | AssignOperator::StarEq
                     | AssignOperator::SlashEq
                     | AssignOperator::ModEq => {
-                        let perform_op = |st| match assign_op {
+                        // a type other than int and float: call its implementation of Num
+                        let num_method = |st: &mut TranslatorState, method_name: &str| {
+                            let (iface_def, method) =
+                                self.statics.get_iface_method_decl(method_name);
+                            let func_ty = Type::Function(
+                                vec![rvalue_ty.clone(), rvalue_ty.clone()],
+                                rvalue_ty.clone().into(),
+                            );
+                            self.translate_iface_method_call_helper(
+                                st,
+                                mono,
+                                &iface_def,
+                                method as u16,
+                                &func_ty,
+                            );
+                        };
+                        let perform_op = |st: &mut TranslatorState| match assign_op {
                             AssignOperator::PlusEq => {
                                 match rvalue_ty {
                                     SolvedType::Int => {
@@ -2356,7 +2372,7 @@ impl Translator {
                                             Instr::AddFloat(Reg::Top, Reg::Top, Reg::Top),
                                         );
                                     }
-                                    _ => unreachable!(),
+                                    _ => num_method(st, "prelude.Num.add"),
                                 };
                             }
                             AssignOperator::MinusEq => {
@@ -2370,7 +2386,7 @@ impl Translator {
                                             Instr::SubFloat(Reg::Top, Reg::Top, Reg::Top),
                                         );
                                     }
-                                    _ => unreachable!(),
+                                    _ => num_method(st, "prelude.Num.subtract"),
                                 };
                             }
                             AssignOperator::StarEq => {
@@ -2384,7 +2400,7 @@ impl Translator {
                                             Instr::MulFloat(Reg::Top, Reg::Top, Reg::Top),
                                         );
                                     }
-                                    _ => unreachable!(),
+                                    _ => num_method(st, "prelude.Num.multiply"),
                                 };
                             }
                             AssignOperator::SlashEq => {
@@ -2398,7 +2414,7 @@ impl Translator {
                                             Instr::DivFloat(Reg::Top, Reg::Top, Reg::Top),
                                         );
                                     }
-                                    _ => unreachable!(),
+                                    _ => num_method(st, "prelude.Num.divide"),
                                 };
                             }
                             AssignOperator::ModEq => {
